@@ -264,13 +264,85 @@ pub fn check_h(l: &mut Local, m: &Mat, rng: &mut Rng) {
     l.sample(|| m.json().set("rank", rk));
 }
 
+/// the same judgement as `check_h` with small violation details (wide matrices)
+fn check_h_compact(l: &mut Local, m: &Mat) {
+    let (r, n) = (m.rows, m.cols);
+    let h = m.to_sparse();
+    let full = rank(r, n, &m.e) == r;
+    l.eval();
+    let det = |what: &str| crate::json::J::obj().set("rows", r).set("cols", n).set("full_rank", full).set("what", what).set("entries_head", crate::json::jentries(&m.e[..m.e.len().min(30)]));
+    match guard(|| parity_to_systematic(&h)) {
+        Err(p) => l.violation(format!("parity_to_systematic panicked (wide): {}", panic_class(&p)), det(&p)),
+        Ok(Err(Error::NotFullRank)) => {
+            if full {
+                l.violation("NotFullRank returned for a full-rank matrix (wide)", det("NotFullRank"));
+            }
+        }
+        Ok(Err(other)) => l.violation(format!("unexpected error {:?} for r <= n", other), det("error")),
+        Ok(Ok(hs)) => {
+            if !full {
+                l.violation("Ok returned for a rank-deficient matrix (wide)", det("Ok"));
+                return;
+            }
+            let es = from_sparse(&hs);
+            if hs.num_rows() != r || hs.num_cols() != n {
+                l.violation("result has different dimensions", det("dimensions"));
+                return;
+            }
+            let mut a = columns(r, n, &m.e);
+            let mut b = columns(r, n, &es);
+            a.sort();
+            b.sort();
+            if a != b {
+                l.violation("result columns are not a permutation of the input columns (wide)", det("multiset of columns differs"));
+                return;
+            }
+            if !tail_invertible(r, n, &es) {
+                l.violation("last r columns of the result are singular (wide)", det("tail singular"));
+                return;
+            }
+            let mut d = Dig::new();
+            d.u(r as u64).u(n as u64).entries(&m.e);
+            l.nt(d.get());
+        }
+    }
+}
+
 pub fn run(run: &mut Run) {
-    run.rule = "r x n binary matrices, 1<=r<=n (mostly <= 10x24, every 64th up to 60x120) from 10 families (random, sparse, dependent row, zero row, pivots at the far right, free columns exhausted before the last pivots, identity left/right, duplicate+zero columns, staircase code, square); oracle = own bit-packed rank, column multiset comparison, tail invertibility; non-trivial = full-rank input with a free column left of a pivot; distinct by matrix digest".into();
+    run.rule = "r x n binary matrices, 1<=r<=n (mostly <= 10x24, every 64th up to 60x120; and 2..5 x (65 535 .. 136 000): index widths) from 10 families (random, sparse, dependent row, zero row, pivots at the far right, free columns exhausted before the last pivots, identity left/right, duplicate+zero columns, staircase code, square); oracle = own bit-packed rank, column multiset comparison, tail invertibility; non-trivial = full-rank input with a free column left of a pivot; distinct by matrix digest".into();
     let n = if cfg!(miri) { 40 } else { run.tier.n(1_500_000, 50_000_000) };
     run.sub("matrices", n, |l, idx, rng| {
         let m = gen_h(rng, idx);
         check_h(l, &m, rng);
     });
+    // index widths: more than 2^16 / 2^17 columns
+    if !cfg!(miri) {
+        run.sub("wide-matrices", run.tier.n(4, 40), |l, idx, rng| {
+            let r = rng.range(2, 5);
+            let n = match idx % 3 {
+                0 => 65_537 + rng.range(0, 5000),
+                1 => 131_073 + rng.range(0, 300),
+                _ => 65_536 - rng.range(0, 2),
+            };
+            let mut e: Vec<(usize, usize)> = Vec::new();
+            for j in 0..r {
+                for c in rng.choose(n, 40) {
+                    e.push((j, c));
+                }
+            }
+            // pivots sometimes only far right, sometimes far left
+            if rng.coin() {
+                for j in 0..r {
+                    let c = n - 1 - 2 * j;
+                    if !e.contains(&(j, c)) {
+                        e.push((j, c));
+                    }
+                }
+            }
+            let m = Mat::new(r, n, e, "wide");
+            check_h_compact(l, &m);
+        });
+    }
     run.sub_seq("directed", 1, |l, _i, rng| {
         for (r, n, e, f) in [
             (3usize, 4usize, vec![(0usize, 0usize), (0, 1), (1, 2), (2, 3)], "witness-3x4"),
